@@ -20,6 +20,7 @@ mod ops_misc;
 mod wl;
 mod wl_enc;
 mod wl_hash;
+mod wl_pair;
 
 use serde_json::{json, Value};
 use std::fs::File;
